@@ -25,8 +25,8 @@ LEVEL = "fault_enumeration"
 DESIGN_REF = "4.16"
 RULE = (
     "cases = transport kind (plain fake / StreamTransport on in-memory streams / MQTTClient on a fake aiomqtt client built around aiomqtt's "
-    "real message iterator) x fault (none, connect raises, body raises, disconnect raises, body+disconnect) x initial file (missing, empty, "
-    "generated registry) x body script: mutate the registry, then leave the context after k loop iterations (k=0..12: saver not started, inside "
+    "real message iterator) x fault (none, connect raises, a hanging connect abandoned by a timeout, body raises, disconnect raises, body+disconnect) x initial file (missing, empty, "
+    "generated registry) x body script: mutate the registry (add a node, or change the loaded nodes in place as the message handlers do), then leave the context after k loop iterations (k=0..12: saver not started, inside "
     "open/write/close of the first save, parked in its sleep) or let T seconds of virtual time pass (T in 1, 899, 900, 901, 1800, 5000, "
     "generated) and leave k iterations after the timer fired. Everything runs on a deterministic virtual-time event loop with an inline "
     "executor, so 15 minutes cost microseconds and a cancellation can land between any two file operations. Oracle: entry loads the file; "
@@ -43,7 +43,7 @@ ASSUMPTIONS = [
 DELETABLE = ()
 
 KINDS = ("plain", "stream", "mqtt")
-FAULTS = ("none", "connect", "body", "disconnect", "body+disconnect")
+FAULTS = ("none", "connect", "body", "disconnect", "body+disconnect", "connect-timeout")
 FILES = ("missing", "empty", "registry")
 FILE_REGISTRY = {"3": {"node_id": 3, "node_type": 17, "protocol_version": "2.2.0", "sketch_name": "from file", "sketch_version": "1", "battery_level": 50,
                        "heartbeat": 0, "sleeping": True, "children": {"1": {"child_id": 1, "child_type": 6, "description": "t", "values": {"0": "20.5"}}}}}
@@ -57,13 +57,15 @@ def budgets(tier: str) -> dict:
 
 def enumerate_cases(tier: str):
     for kind, fault, initial in itertools.product(KINDS, FAULTS, FILES):
-        if kind != "plain" and "disconnect" in fault:
-            continue  # the built-in transports absorb their own disconnect errors; see the kind-specific cases below
+        if kind != "plain" and ("disconnect" in fault or fault == "connect-timeout"):
+            continue  # the built-in transports absorb their own disconnect errors; a hanging connect is modelled on the plain kind
         for k in range(0, 13):
             yield {"kind": kind, "fault": fault, "file": initial, "k": k, "T": None, "mutate": True}
         for T in (1, 899, 900, 901, 1800, 5000):
             for k in (0, 1, 2, 3, 5):
                 yield {"kind": kind, "fault": fault, "file": initial, "k": k, "T": T, "mutate": True}
+                if initial == "registry":
+                    yield {"kind": kind, "fault": fault, "file": initial, "k": k, "T": T, "mutate": "in-place"}
 
 
 def strategy(tier: str):
@@ -74,9 +76,9 @@ def strategy(tier: str):
             "file": st.sampled_from(FILES),
             "k": st.integers(0, 20),
             "T": st.one_of(st.none(), st.sampled_from((1, 899, 900, 901, 1799, 1800, 1801, 2700, 5000)), st.integers(1, 10000), st.floats(0.5, 4000.0).map(lambda x: round(x, 1))),
-            "mutate": st.booleans(),
+            "mutate": st.sampled_from((True, False, "in-place")),
         }
-    ).filter(lambda c: c["kind"] == "plain" or "disconnect" not in c["fault"])
+    ).filter(lambda c: c["kind"] == "plain" or ("disconnect" not in c["fault"] and c["fault"] != "connect-timeout"))
 
 
 class BodyError(Exception):
@@ -93,6 +95,8 @@ class PlainTransport(env.RecordingTransport):
         await asyncio.sleep(0)
         if self.fault == "connect":
             raise TransportError("injected connect fault")
+        if self.fault == "connect-timeout":
+            await asyncio.Event().wait()  # hangs until the caller gives up
 
     async def disconnect(self) -> None:
         self.disconnected += 1
@@ -167,6 +171,11 @@ def run_case(case: dict) -> Outcome:
         entered = False
         at_exit_doc = None
         try:
+            if fault == "connect-timeout":
+                # the application abandons a hanging connect: cancellation is delivered inside __aenter__
+                async with asyncio.timeout(30):
+                    await gateway.__aenter__()
+                return fail("connect-timeout:no-error", "a hanging connect returned")
             async with gateway:
                 entered = True
                 if initial == "registry" and env.snapshot(gateway.nodes) != FILE_REGISTRY:
@@ -177,8 +186,16 @@ def run_case(case: dict) -> Outcome:
                     if state != "ok" or doc != registry_doc(gateway):
                         return fail("entry:no-save-after-entering", f"one virtual second after entry the file is {state} {str(doc)[:120]!r}, registry {registry_doc(gateway)!r}")
                 if case["mutate"]:
-                    gateway.nodes[9] = Node(9, 17, "2.0")
-                    gateway.nodes[9].add_child(1, 6, "added in body")
+                    if case["mutate"] == "in-place" and gateway.nodes:
+                        # change known nodes in place, the way the message handlers do
+                        for node in gateway.nodes.values():
+                            node.battery_level = 42
+                            node.sketch_name = "changed in place"
+                            node.add_child(7, 6, "added in place")
+                            node.children[7].values[0] = "21.5"
+                    else:
+                        gateway.nodes[9] = Node(9, 17, "2.0")
+                        gateway.nodes[9].add_child(1, 6, "added in body")
                 changed_at = loop.time()
                 if T is not None:
                     await asyncio.sleep(T)
@@ -207,6 +224,12 @@ def run_case(case: dict) -> Outcome:
         phase = "never-entered" if not entered else ("after-timer" if T is not None else ("early-exit" if k < 8 else "late-exit"))
         where = f"kind={kind} fault={fault} file={initial} k={k} T={T}"
 
+        if fault == "connect-timeout":
+            if not isinstance(caught, (TimeoutError, asyncio.CancelledError)):
+                return fail(f"connect-timeout:raised-{type(caught).__name__}", f"{where}: an abandoned connect surfaced as {caught!r}")
+            if leftover:
+                return fail("connect-timeout:task-left", f"{where}: connecting was abandoned (timeout) and tasks are left behind: {leftover!r}")
+            return None
         if fault == "connect":
             if not isinstance(caught, TransportError):
                 return fail(f"connect-fail:raised-{type(caught).__name__}", f"{where}: failing connect surfaced as {caught!r}")
